@@ -198,11 +198,145 @@ class HelpersCase(Case):
     return cl
 
 
-CASES = {'keypoints': KeypointsCase(), 'helpers': HelpersCase()}
+class _Token(object):
+  """A value the helper may only pass on."""
+
+  def __init__(self, name):
+    self.name = name
+
+  def __repr__(self):
+    return '<%s>' % self.name
+
+
+_FWD_SCRIPT = """
+import numpy as np
+pl = mod('premade_lib'); cf = mod('configs')
+found = []
+cases = [([0.0, 1.0, 2.0, 3.0, 4.0], [0.0, 1.0, 1.0, 1.0, 1.0]), ([0.0, 1.0, 2.0, 3.0, 4.0], [1.0, 1.0, 1.0, 1.0, 0.0]),
+         ([0.0, 1.0, 2.0, 3.0, 4.0], [1.0, 0.0, 1.0, 0.0, 1.0]), ([3.0, 3.0, 1.0, 2.0], [1.0, 1.0, 0.0, 0.0]),
+         ([0.0, 1.0, 2.0, 3.0, 4.0], [2.0, 1.0, 1.0, 1.0, 5.0])]
+for vals, w in cases:
+  for mode in ('quantiles', 'uniform'):
+    for nk in (2, 3, 5):
+      fc = [cf.FeatureConfig(name='a', pwl_calibration_num_keypoints=nk, pwl_calibration_input_keypoints=mode)]
+      try:
+        got = pl.compute_feature_keypoints(fc, {'a': np.array(vals)}, weights=np.array(w))['a']
+        want = pl.compute_keypoints(np.array(vals), num_keypoints=nk, keypoints=mode, weights=np.array(w))
+        same = len(got) == len(want) and np.allclose(got, want)
+      except Exception as e:
+        got, want, same = 'raised %s' % type(e).__name__, None, False
+      if not same:
+        found.append('values=%s weights=%s mode=%s num_keypoints=%d: helper %s, compute_keypoints %s' % (
+            vals, w, mode, nk, np.asarray(got).tolist() if not isinstance(got, str) else got, None if want is None else np.asarray(want).tolist()))
+      if len(found) >= 3:
+        break
+result = found[:3]
+"""
+
+
+class ForwardingCase(Case):
+  """compute_feature_keypoints against the contract of compute_keypoints (C18's main function): for every feature with
+  a keypoint MODE the helper calls compute_keypoints exactly once with the feature's own data, the example weights and
+  reduction it was given and the options of the feature config, and stores what that call returns; explicit keypoints
+  are kept; categorical features are skipped.  Data and weights are opaque tokens - whatever the helper does with them
+  it does for every data set (a helper that inspects them raises here and is then checked on concrete arrays,
+  labelled bounded)."""
+  contract_key = None
+  xcheck = False
+
+  def replay_desc(self, cfg, model, g):
+    return {'kind': 'script', 'code': _FWD_SCRIPT, 'args': [], 'kwargs': {}}
+
+  def replay_eval(self, cfg, model, g, desc, nat):
+    failing = ['native comparison raised ' + nat['error'][:200]] if 'error' in nat else list(nat.get('ok') or [])
+    return {'desc': {'kind': 'real compute_feature_keypoints against compute_keypoints on arrays with zero example weights'},
+            'native': {k: v for k, v in nat.items() if k != 'trace'}, 'failing': failing}
+
+  def _run(self, pl, cf, cfg, data, weights):
+    fcs = [cf.FeatureConfig(name='a', pwl_calibration_num_keypoints=cfg['nk'], pwl_calibration_input_keypoints=cfg['mode'],
+                            pwl_calibration_clip_min=cfg.get('clip_min'), pwl_calibration_clip_max=cfg.get('clip_max'),
+                            default_value=cfg.get('default')),
+           cf.FeatureConfig(name='b', pwl_calibration_num_keypoints=cfg['nk'] + 1, pwl_calibration_input_keypoints='uniform'),
+           cf.FeatureConfig(name='c', num_buckets=3),
+           cf.FeatureConfig(name='d', pwl_calibration_input_keypoints=[0.0, 0.5, 2.0])]
+    calls = []
+    saved = pl.compute_keypoints
+
+    def recorder(values, num_keypoints, keypoints='quantiles', clip_min=None, clip_max=None, default_value=None,
+                 weights=None, weight_reduction='mean', feature_name=''):
+      tok = _Token('keypoints-of-call-%d' % len(calls))
+      calls.append(dict(values=values, num_keypoints=num_keypoints, keypoints=keypoints, clip_min=clip_min, clip_max=clip_max,
+                        default_value=default_value, weights=weights, weight_reduction=weight_reduction, result=tok))
+      return tok
+    pl.compute_keypoints = recorder
+    try:
+      kw = {}
+      if cfg.get('weighted'):
+        kw = dict(weights=weights, weight_reduction=cfg.get('reduction', 'mean'))
+      out = pl.compute_feature_keypoints(fcs, data, **kw)
+    finally:
+      pl.compute_keypoints = saved
+    return fcs, calls, out
+
+  def body(self, cfg, c):
+    pl = load.mod('premade_lib')
+    cf = load.mod('configs')
+    data = {k: _Token('data-' + k) for k in 'abcd'}
+    weights = _Token('weights')
+    tag = ''
+    same = lambda x, y: x is y
+    try:
+      fcs, calls, out = self._run(pl, cf, cfg, data, weights)
+    except Exception:  # pylint: disable=broad-except
+      # the helper looks inside the data: concrete arrays with zero weights at the extremes instead
+      tag = 'bounded:'
+      data = {k: np.array([0.0, 1.0, 2.0, 3.0, 4.0]) + i for i, k in enumerate('abcd')}
+      weights = np.array([0.0, 1.0, 2.0, 1.0, 0.0])
+      same = lambda x, y: x is not None and y is not None and np.shape(x) == np.shape(y) and bool(np.all(np.asarray(x) == np.asarray(y)))
+      try:
+        fcs, calls, out = self._run(pl, cf, cfg, data, weights)
+      except Exception as e:  # pylint: disable=broad-except
+        return [('helper-returns-without-error: %s %s' % (type(e).__name__, str(e)[:80]), E.FALSE)]
+    cl = [(tag + 'one-call-per-feature-with-a-keypoint-mode', B.const(len(calls) == 2))]
+    by = {}
+    for call in calls:
+      for k in 'ab':
+        if same(call['values'], data[k]):
+          by[k] = call
+    for k, fc in (('a', fcs[0]), ('b', fcs[1])):
+      call = by.get(k)
+      cl.append((tag + 'feature-%s:called-with-its-own-data-unchanged' % k, B.const(call is not None)))
+      if call is None:
+        continue
+      cl.append((tag + 'feature-%s:num_keypoints-from-the-config' % k, B.const(call['num_keypoints'] == fc.pwl_calibration_num_keypoints)))
+      cl.append((tag + 'feature-%s:mode-from-the-config' % k, B.const(call['keypoints'] == fc.pwl_calibration_input_keypoints)))
+      for opt, want in (('clip_min', fc.pwl_calibration_clip_min), ('clip_max', fc.pwl_calibration_clip_max),
+                        ('default_value', fc.default_value)):
+        got = call[opt]
+        cl.append((tag + 'feature-%s:%s-from-the-config' % (k, opt), B.const((got is None) == (want is None) and (want is None or got == want))))
+      if cfg.get('weighted'):
+        cl.append((tag + 'feature-%s:example-weights-passed-unchanged' % k, B.const(same(call['weights'], weights))))
+        cl.append((tag + 'feature-%s:weight-reduction-passed' % k, B.const(call['weight_reduction'] == cfg.get('reduction', 'mean'))))
+      else:
+        cl.append((tag + 'feature-%s:no-example-weights' % k, B.const(call['weights'] is None)))
+      cl.append((tag + 'feature-%s:result-is-what-compute_keypoints-returned' % k, B.const(out.get(k) is call['result'])))
+    cl.append((tag + 'categorical-feature-skipped', B.const('c' not in out)))
+    cl.append((tag + 'explicit-keypoints-kept', B.const(list(out.get('d', [])) == [0.0, 0.5, 2.0])))
+    return cl
+
+
+CASES = {'keypoints': KeypointsCase(), 'helpers': HelpersCase(), 'forwarding': ForwardingCase()}
 
 
 def configs(tier, rng):
   jobs = []
+  for mode in ('quantiles', 'uniform'):
+    for nk in (2, 5):
+      for (lo, hi, dv) in ((None, None, None), (0.0, 2.5, None), (None, 0.0, -1.0), (1.0, None, 0)):
+        for weighted in (False, True):
+          for reduction in (('mean', 'sum') if weighted else ('mean',)):
+            jobs.append(('forwarding', dict(mode=mode, nk=nk, clip_min=lo, clip_max=hi, default=dv, weighted=weighted,
+                                            reduction=reduction)))
   ns = (1, 2, 3, 4) if tier == 'quick' else (1, 2, 3, 4, 5)
   clips = [(None, None), (0.5, 2.5), (1.0, None), (None, 2.0), (1.0, 1.0), (0.0, 2.0)]   # 0.0: a falsy clip bound
   for n in ns:
@@ -246,7 +380,11 @@ EVIDENCE = {
         'length depends on the data). The postconditions of the statement are evaluated on the REAL compute_keypoints for the '
         'complete domain values in {0..3}^n (n <= 4 quick / 5 thorough) x optional weights in {0,1,2}^n (not all zero) x clip '
         'bounds x default value x num_keypoints 2-4 x both modes x both reductions, and on the config helpers for small data '
-        'sets. Nothing here is counted as proved.'),
+        'sets. Nothing here is counted as proved. One modular obligation set is parametric rather than enumerated (case '
+        'forwarding): compute_feature_keypoints is run with OPAQUE data and weight tokens against a recorder in place of '
+        'compute_keypoints - it calls it once per feature with that feature's data, the given example weights / reduction and '
+        'the options of the feature config, and stores the result: whatever holds for compute_keypoints then holds for the '
+        'configs the helper fills, for every data set.'),
     'rule': 'one evaluation = one (array, weights, options) call of the real function with all postconditions; non-trivial = '
             'arrays with at least two distinct clipped values; obligations are per (configuration, postcondition) summaries',
     'bounds': 'see explanation',
